@@ -18,6 +18,10 @@ DEST = {
 }
 NS_SETUP = ("ip link set lo up && ip addr add 168.63.129.16/32 dev lo && ip addr add 169.254.169.254/32 dev lo "
             "&& ip addr add 10.9.8.7/32 dev lo")
+# A key keeper that has been running for a minute starts the agent's status task, which writes below the fixed path
+# /var/log/azure-proxy-agent: every rig process therefore also gets a private mount namespace with an empty /var/log.
+NS = ["unshare", "-n", "-m", "--propagation", "private"]
+NS_SETUP_PRIVATE = NS_SETUP + " && mount -t tmpfs tmpfs /var/log"
 
 
 def gen_body(seed, n):
@@ -72,7 +76,7 @@ def run_rig(script, name, *, timeout=300, bindir=None, strace=None, keep_output=
     if strace:
         # system-call log of the whole process tree (file names only for the requested calls)
         launcher = "strace -f -qq -o %s -e trace=%s %s" % (os.path.join(d, "strace.log"), strace, exe)
-    cmd = ["unshare", "-n", "sh", "-c", NS_SETUP + " && exec " + launcher]
+    cmd = NS + ["sh", "-c", NS_SETUP_PRIVATE + " && exec " + launcher]
     try:
         p = subprocess.run(cmd, env=env, cwd=d, stdout=subprocess.PIPE, stderr=subprocess.STDOUT, timeout=timeout,
                            text=True, errors="replace")
